@@ -3,6 +3,7 @@ package pogreb
 import (
 	"io"
 	"os"
+	"path/filepath"
 
 	"github.com/akrylysov/pogreb/fs"
 )
@@ -41,6 +42,26 @@ func (db *DB) Backup(path string) error {
 
 	srcFS := db.opts.FileSystem
 	dstFS := fs.Sub(db.opts.rootFS, path)
+
+	// The destination may hold an older backup - remove its segments that are not part of this one,
+	// otherwise records compacted away since then would come back when the backup is opened.
+	names := make(map[string]struct{}, len(segments))
+	for _, seg := range segments {
+		names[segmentName(seg.id, seg.sequenceID)] = struct{}{}
+	}
+	entries, err := dstFS.ReadDir(".")
+	if err != nil {
+		return err
+	}
+	for _, entry := range entries {
+		name := entry.Name()
+		if _, ok := names[name]; ok || filepath.Ext(name) != segmentExt {
+			continue
+		}
+		if err := dstFS.Remove(name); err != nil {
+			return err
+		}
+	}
 
 	for _, seg := range segments {
 		name := segmentName(seg.id, seg.sequenceID)
